@@ -260,7 +260,7 @@ def prefixes(model, length):
 
 
 def config(tier):
-    return {"max_nodes": 3, "depth": 5, "plen": 3} if tier == "quick" else {"max_nodes": 3, "depth": 7, "plen": 4}
+    return {"max_nodes": 3, "depth": 5, "plen": 3} if tier == "quick" else {"max_nodes": 3, "depth": 6, "plen": 4}
 
 
 def shard(shard, nshards, tier, seed):
